@@ -16,7 +16,7 @@ pub static DEF: PropDef = PropDef {
 padding to reach a multiple of 16; block 1 XOR MD5(type, secret, rv), block i XOR MD5(secret, ciphertext block i-1)) using the harness's own MD5; |value| = 16*ceil((2+|payload|+|lp|)/16); the attribute type is \
 unchanged, the wire form carries the H bit and the clear type; the value does not change when only the unused tail of the alignment padding changes, nor across repeated calls. \
 (backward) G-hidden tapes (random values and crafted plaintexts encrypted with the reference key schedule): reveal(h,s,rv) must equal the reference reveal (equal Ok value, or both Err). \
-Non-trivial = at least 2 cipher blocks (chaining exercised); distinct by hash of the inputs.",
+(related secrets) the same AVP, random vector and paddings hidden and revealed under two related secrets (prefix, extension, two octets swapped incl. 8 apart, a neighbouring pair changed by (+1,-31), same length different content, empty) back to back on one thread, every result against the reference. Non-trivial = at least 2 cipher blocks (chaining exercised); distinct by hash of the inputs.",
     assumptions: &[
         "the harness's own MD5 (RFC 1321, self-tested against the RFC vectors and against the md5 crate at padding-boundary lengths) and reference cipher are the trusted base",
         "the original-length subfield holds the total original AVP length (6 + payload), the crate's convention (DESIGN.md section 0)",
@@ -34,7 +34,7 @@ fn parts(t: Tier) -> Vec<Part> {
         Tier::Quick => (600_000, 750_000),
         Tier::Thorough => (8_000_000, 10_000_000),
     };
-    vec![tape("forward", a, 1500), tape("backward", b, 500)]
+    vec![tape("forward", a, 1500), tape("backward", b, 500), tape("related-secrets", a / 3, 1500)]
 }
 
 fn check_forward(h: &HideCase, t: &mut Tape, cx: &mut Cx) -> Res {
@@ -154,9 +154,31 @@ pub fn check_backward(h: &HiddenCase, cx: &mut Cx) -> Res {
     Ok(())
 }
 
+/// the same AVP, random vector and paddings under two related secrets, one call after the other on the same thread:
+/// hide under s1, hide under s2, then reveals of both ciphertexts under both secrets - every result against the reference
+fn check_related(t: &mut Tape, cx: &mut Cx) -> Res {
+    let h1 = gen_hide(t);
+    let s2 = related_secret(t, &h1.secret);
+    if s2 == h1.secret {
+        cx.class("related secret equal to the first (no-op case)");
+    }
+    let h2 = HideCase { avp: h1.avp.clone(), payload: h1.payload.clone(), secret: s2.clone(), rv: h1.rv, lp: h1.lp.clone(), ap: h1.ap };
+    check_forward(&h1, t, cx)?;
+    check_forward(&h2, t, cx)?;
+    let v1 = hide(h1.avp.attr, &h1.payload, &h1.secret, &h1.rv, &h1.lp, &h1.ap);
+    let v2 = hide(h1.avp.attr, &h1.payload, &s2, &h1.rv, &h1.lp, &h1.ap);
+    let attr = h1.avp.attr;
+    for (v, s) in [(&v1, &h1.secret), (&v1, &s2), (&v2, &s2), (&v2, &h1.secret), (&v1, &h1.secret)] {
+        check_backward(&HiddenCase { attr, value: v.clone(), secret: s.clone(), rv: h1.rv, crafted: Some(6 + h1.payload.len()) }, cx)?;
+    }
+    cx.class("related-secret sequence");
+    Ok(())
+}
+
 fn run_tape(part: &str, tape: &[u8], cx: &mut Cx) -> Res {
     let mut t = Tape::new(tape);
     match part {
+        "related-secrets" => check_related(&mut t, cx),
         "forward" => {
             let h = gen_hide(&mut t);
             check_forward(&h, &mut t, cx)
